@@ -1,9 +1,11 @@
 #!/bin/bash
-# Developer tool: applies every seeded change to /repo in turn, runs all checks (evidence redirected to a scratch dir), reverts.
+# Developer tool: applies every stored seeded change to /repo in turn, runs all checks (evidence redirected to a scratch dir), reverts.
+# Prints one line per seed and writes /tmp/seedcheck/matrix.json {seed: {prop: [rules...]}}.
 cd /verif; ./run.sh build
 git -C /repo status --short | grep -q . && { echo "/repo dirty"; exit 1; }
 mkdir -p /tmp/seedcheck; cp known_findings.json /tmp/seedcheck/
 export GOFLAGS=-mod=mod GOPROXY=off GOSUMDB=off GOTOOLCHAIN=local; unset GOWORK
+echo "{" > /tmp/seedcheck/matrix.json; first=1
 for d in seeded/C*; do
   id=$(basename $d)
   [ -f $d/patch.diff ] || continue
@@ -14,5 +16,19 @@ for d in seeded/C*; do
     flagged=$(grep -o "^VIOLATION property=C[0-9]*" /tmp/seedcheck/$id.out | sort -u | sed 's/VIOLATION property=//' | tr '\n' ' ')
     undec=$(grep -o "^UNDECIDED property=C[0-9]*" /tmp/seedcheck/$id.out | sort -u | sed 's/UNDECIDED property=//' | tr '\n' ' ')
     echo "$id flagged_by: $flagged undecided: $undec"
+    [ $first = 1 ] || echo "," >> /tmp/seedcheck/matrix.json; first=0
+    python3 - $id >> /tmp/seedcheck/matrix.json <<'PY'
+import re,sys,json
+id=sys.argv[1]; out=open('/tmp/seedcheck/%s.out'%id).read().split('\n')
+res={}; cur=None
+for l in out:
+    m=re.match(r'VIOLATION property=(C\d+)',l)
+    if m: cur=m.group(1); res.setdefault(cur,[]); continue
+    m=re.match(r'\s+rule=(\S+)',l)
+    if m and cur:
+        if m.group(1) not in res[cur]: res[cur].append(m.group(1))
+sys.stdout.write(json.dumps(id)+": "+json.dumps(res))
+PY
   else echo "$id does not apply"; fi
 done
+echo "}" >> /tmp/seedcheck/matrix.json
